@@ -29,7 +29,7 @@ def run(ctx, chk):
     Q = QueueAnalysis(ctx)
     L = LevelAnalysis(ctx)
     Q.rule_push(chk, "P1", "P1")
-    Q.rule_pop(chk, "P1", "P1", "P1")
+    Q.rule_pop(chk, "P1", "P1", "P1", seq=True)
     Q.who_may(chk, "P1")
     Q.rule_constructors(chk, "P2")
     # P3: add_order publishes through Q.push exactly once
